@@ -65,3 +65,11 @@ Theorem torch_model_is_source :
   forall (A : Type) (c : cfg) (x : list A), torch_frames_src c x = torch_frames c x.
 Proof. exact @torch_frames_tie. Qed.
 Print Assumptions torch_model_is_source.
+
+(* the torch energy coefficient (all flag combinations, incl. the log floor) equals numpy's *)
+From Verif Require Import Stft.Energy.
+Theorem torch_energy_eq_np :
+  forall (xs : list R) (Lr floor : R) (use_power use_log : bool),
+  (0 < Lr)%R -> torch_energy xs Lr floor use_power use_log = np_energy xs Lr floor use_power use_log.
+Proof. exact torch_energy_eq_np_l. Qed.
+Print Assumptions torch_energy_eq_np.
